@@ -159,4 +159,25 @@ private def defs0 : Site → List (Name × VarDef)
 example : let e := (getVariables ⟨sh0, []⟩ ⟨[1], [], 3⟩ [] (layersOf defs0) []).env
     (get e 1, get e 2, get e 3) = ([11], [21, 11], [5, 21, 11, 64, 1]) := by decide
 
+/-! ## `sh:` env entries see the Taskfile's env -/
+
+/-- **C10 (env chain).** An `sh:` env entry that reads `$x` gets the process value of `x` if the
+process has one (precedence experiment off), otherwise the value of the env entry `x` when that
+entry is a literal (wherever it stands) … -/
+theorem C10_env_sh_reads_literal (os : List (Name × Str)) (static : List (Name × Str)) (x : Name) (v : Str)
+    (hos : os.lookup x = none) (hx : static.lookup x = some v) : readEnv os static x = v := by
+  simp [readEnv, hos, hx]
+
+theorem C10_env_sh_os_wins (os static : List (Name × Str)) (x : Name) (v : Str) (hos : os.lookup x = some v) :
+    readEnv os static x = v := by simp [readEnv, hos]
+
+/-- … a global `sh:` entry sees the global entries before it, a task-level one every global entry,
+the task's literals and the task's earlier `sh:` entries (non-vacuity on concrete chains) -/
+example : envChain [] [(0, .read 1), (1, .lit [118])] [] = [(0, []), (1, [118])] := by decide      -- later global literal: not seen
+example : envChain [] [(1, .lit [118]), (0, .read 1)] [] = [(1, [118]), (0, [118])] := by decide
+example : envChain [] [(0, .read 9)] [(2, .read 3), (3, .lit [119]), (4, .read 0)] =
+    [(0, []), (3, [119]), (2, [119]), (4, [])] := by decide                                       -- later TASK literal: seen
+example : envChain [] [(0, .lit [118])] [(1, .read 0), (2, .read 1)] = [(0, [118]), (1, [118]), (2, [118])] := by decide
+example : envChain [(0, [111])] [(0, .lit [118])] [(1, .read 0)] = [(0, [118]), (1, [111])] := by decide   -- the process value wins
+
 end Props.C10
